@@ -2,13 +2,14 @@
 
 oracle (no Lean involved), five families:
   paths        generated template sets are run, in one worker subprocess per hash seed (0, 1, 2 and one seeded "random"
-               value), through 11 constructions - string with uri+filename / bare string / the file's BYTES given as text / file in
+               value), through 12 constructions - string with uri+filename / bare string / the file's BYTES given as text / file in
                memory via a lookup /
-               file without uri / module_directory / modulename_callable / ModuleTemplate over the written module file /
+               file without uri / module_directory / modulename_callable (absolute; and relative
+               answer followed by a change of the working directory) / ModuleTemplate over the written module file /
                ModuleTemplate over `Template.code` written out by hand, with the template source as str and as bytes /
                the module directory re-loaded by a FRESH process - each through render, render_unicode, render_context, get_def(n).render() for every def, and
                (default options, string data) the mako-render command, in-process cmdline() and the real executable
-               (13 path labels in all).  Besides the grammar-generated sets there are encoded sources: utf-8 / utf-8
+               (14 path labels in all).  Besides the grammar-generated sets there are encoded sources: utf-8 / utf-8
                with BOM / latin-1 / cp1252, declared by input_encoding or a coding comment, whose first character has the
                UTF-8 lead byte 0xEF (U+F000-U+FFFF, also BOM + U+FEFF) or is one of the BOM's bytes in a single-byte encoding.  Outputs, `source`, `code` (modulo CODE_MAY_DIFFER), has_def/list_defs/get_def
                must agree between all paths and all seeds; ground truth on the reference path: list_defs = the planted
@@ -56,8 +57,8 @@ RULE = ("template sets = a main template built from self-contained items (text i
         "to auxiliary templates incl. several importing namespaces that supply the same name, an inheriting template whose "
         "def reads local/self/parent/next (bracketed by markers: ground truth for get_def().render()), a context.keys() "
         "probe inside a def) + data + compile options (strict_undefined, "
-        "default_filters, buffer_filters, imports, output_encoding); each set x 11 construction paths (+ mako-render twice = "
-        "13 path labels) x 3-4 render calls x get_def per def x 4 hash seeds; plus, per seed, 30 (thorough 300) lookups "
+        "default_filters, buffer_filters, imports, output_encoding); each set x 12 construction paths (+ mako-render twice = "
+        "14 path labels) x 3-4 render calls x get_def per def x 4 hash seeds; plus, per seed, 30 (thorough 300) lookups "
         "over 2-4 directories with shadowed URIs and 4 module writers x 2 in-place regeneration scenarios; plus, in the "
         "main process, 60 (800) edit/re-get/second-lookup histories and 40 (600) sets of URIs that differ only in "
         "non-word characters in one lookup; non-trivial = the main template has >= 2 declared names in some render "
@@ -602,7 +603,7 @@ def compare_obs(ref, ob, path, case, loose, diffs):
             rel = linemap_relation(la, ma, lb, mb)
             if rel:
                 diffs.append(["path-code", path, "line_map", None, rel])
-        want_magic = path in ("moddir", "modcall", "modtmpl_file", "reload")     # (bytes / modtmpl_bytes: text-path modules)
+        want_magic = path in ("moddir", "modcall", "modcall_rel", "modtmpl_file", "reload")     # (bytes / modtmpl_bytes: text-path modules)
         if mb != want_magic:
             diffs.append(["path-code", path, "magic-comment", want_magic, mb])
     for k in ("list_defs", "has_def"):
@@ -735,6 +736,16 @@ def worker_case_A(case, root):
             m2 = os.path.join(cdir, "m2")
             return TemplateLookup([tdir], modulename_callable=lambda fn, u: os.path.join(m2, re.sub(r"\W", "-", u) + ".mod.py"),
                                   **lkopts).get_template(uri)
+        if path == "modcall_rel":
+            # a modulename_callable that answers with a RELATIVE path; afterwards the process changes its working
+            # directory (the template must keep answering for its module file)
+            m3 = os.path.join(cdir, "m3")
+            t_ = TemplateLookup([tdir], modulename_callable=lambda fn, u: os.path.relpath(os.path.join(m3, re.sub(r"\W", "+", u) + ".py")),
+                                **lkopts).get_template(uri)
+            other = os.path.join(cdir, "elsewhere")
+            os.makedirs(other, exist_ok=True)
+            os.chdir(other)
+            return t_
         if path == "modtmpl_file":
             mp = os.path.join(cdir, "m1", uri.lstrip("/") + ".py")
             mod = load_pyfile("c08_mt_%d" % case["id"], mp)
@@ -754,8 +765,10 @@ def worker_case_A(case, root):
 
     ref = None
     keep = []
-    for path in ("str", "str_bare", "bytes", "file", "file_direct", "moddir", "modcall", "modtmpl_file", "modtmpl_code",
-                 "modtmpl_bytes"):
+    cwd0 = os.getcwd()
+    for path in ("str", "str_bare", "bytes", "file", "file_direct", "moddir", "modcall", "modcall_rel", "modtmpl_file",
+                 "modtmpl_code", "modtmpl_bytes"):
+        os.chdir(cwd0)
         try:
             t = build(path)
         except Exception as e:       # noqa: BLE001
@@ -782,6 +795,7 @@ def worker_case_A(case, root):
             res["diffs"].append(["path-construct", path, "constructor", ref["construct"], ob["construct"]])
             continue
         compare_obs(ref, ob, path, case, path in ("str_bare", "file_direct"), res["diffs"])
+    os.chdir(cwd0)
     if ref is not None and ref["construct"][0] == "ok":
         if not case["opts"] and all(isinstance(v, str) and "\n" not in v for v in case["data"].values()):
             for real in ([False, True] if case.get("cli_real") else [False]):
@@ -1565,13 +1579,13 @@ def corr_module_id(ctx):
                  "filename": opt(0.4, lambda: ctx.rng.choice(["", "/d/" + rand_uri(ctx.rng), rand_uri(ctx.rng), "/d/../e//t.html", "../up.html"])),
                  "uri": opt(0.4, lambda: ctx.rng.choice(["", rand_uri(ctx.rng), "/" + rand_uri(ctx.rng), "/a/../../x", "..\\x", "/a-b.html"])),
                  "module_directory": opt(0.6, lambda: ctx.rng.choice(["/m", "m/./x/", "", "/m//"])),
-                 "module_filename": opt(0.8, lambda: ctx.rng.choice(["/mf/x.py", "", "rel.py"]))}
+                 "module_filename": opt(0.8, lambda: ctx.rng.choice(["/mf/x.py", "", "rel.py", "mods/./t.py", "../up/x.py", "/mf//./x.py"]))}
             if any(v is not None and "\0" in v for v in a.values()):
                 continue
             cases.append(a)
-            reqs.append("p8 select %s %s %s %s %s %s" % tuple(
+            reqs.append("p8 select %s %s %s %s %s %s %s" % tuple(
                 ["none" if a[k] is None else enc(a[k]) for k in ("text", "filename", "uri", "module_directory", "module_filename")]
-                + [enc("0xMEM")]))
+                + [enc("0xMEM"), enc(os.getcwd())]))
         outs = drv.ask_many(reqs)
         cwd = os.getcwd()
         import posixpath
@@ -1590,8 +1604,6 @@ def corr_module_id(ctx):
             ctx.branch("select:" + model[2])
             if model[2] in ("rejected", "nosource"):
                 model[0] = model[1] = None
-            elif model[2] == "filemod" and a["module_filename"] is None:
-                model[3] = posixpath.normpath(posixpath.join(cwd, model[3]))      # os.path.abspath
             if model != got:
                 ctx.disagree("corr.path_select", {"input": a}, model, got)
     finally:
@@ -2145,7 +2157,7 @@ def hist_text(k):
 
 def run_history(ops, base, tag):
     """ops: 'load' (get through lookup A), 'edit' (rewrite the source with a newer mtime), 'fresh' (a NEW lookup on the
-    same root and module directory), 'other' (a second lookup with ANOTHER root sharing the module directory, its own
+    same root and module directory), 'respell' (the same, root and module directory spelled differently), 'other' (a second lookup with ANOTHER root sharing the module directory, its own
     newer source for the same URI), 'again' (read everything once more without any change).  After every step the
     template just obtained must answer source/code/defs/output for ITS OWN text: .source = the text on disk, .code =
     the current text of its module file = (modulo CODE_MAY_DIFFER) the module of the same text compiled in memory.
@@ -2177,6 +2189,11 @@ def run_history(ops, base, tag):
             root = ra
         elif op == "fresh":
             lk[ra] = TemplateLookup([ra], module_directory=md)
+            root = ra
+        elif op == "respell":
+            # the same root and module directory under another spelling (relative, redundant separators)
+            lk[ra] = TemplateLookup([os.path.relpath(ra) + "//.", ra + "/./"][len(keep) % 2:][:1],
+                                    module_directory=[os.path.relpath(md) + "/", md + "//"][len(keep) % 2])
             root = ra
         elif op == "other":
             texts[rb] = write(rb)
@@ -2219,10 +2236,11 @@ def oracle_histories(ctx, base):
     from harness.common import ddmin
     st = ctx.stream("oracle.histories", "oracle")
     n = 60 if ctx.quick else 800
-    fixed = [["load", "edit"], ["load", "other"], ["load", "again", "edit", "again"], ["load", "fresh", "edit", "other", "edit"]]
+    fixed = [["load", "edit"], ["load", "other"], ["load", "again", "edit", "again"], ["load", "fresh", "edit", "other", "edit"],
+             ["load", "respell", "edit", "respell"]]
     reported = False
     for k in range(n):
-        ops = fixed[k] if k < len(fixed) else ["load"] + [ctx.rng.choice(["edit", "edit", "other", "fresh", "again", "load"])
+        ops = fixed[k] if k < len(fixed) else ["load"] + [ctx.rng.choice(["edit", "edit", "other", "fresh", "again", "load", "respell"])
                                                           for _ in range(ctx.rng.randint(1, 5))]
         st["cases"] += len(ops)
         for op in ops:
